@@ -505,6 +505,9 @@ def vc_codegen_sqrt(H):
             x = mk('x', attrs={'algebra': alg, 'grades': (0,) if case == 'scalar' else (0, 2),
                                'values': sym('x.values', callable_result=lambda i, m, a, k: 'XVALS')})
             x.attrs['e'] = 'XE'                                              # the operand holds fresh symbols: its coefficients print as atoms
+            # the operand of these three cases stores blades (the empty multivector, whose root is the empty multivector - fix F18 - is
+            # exercised by the stand-ins of C11 / C12)
+            x.attrs['keys'] = sym('x.keys', callable_result=lambda i, m, a, k: (0,) if case == 'scalar' else (0, 3))
             g0 = mk('x.grade(0)')
             g0.attrs['e'] = 'AE'
             x.attrs['grade'] = sym('x.grade', callable_result=lambda i, m, a, k: g0 if tuple(a) == (0,) else mk('x.grade(?)'))
